@@ -117,3 +117,66 @@ pub fn compile_entry(src: &str, b: &Builtins) -> Result<Bytecode, qv::CompileErr
 }
 
 pub fn _unused(_: E) {}
+
+// ---------------------------------------------------------------------------------------------
+// REPL sessions on SimNet
+
+use quiver_environment::{Repl, ReplError};
+
+pub struct ReplSession {
+    pub sim: Sim,
+    pub repl: Repl<E>,
+}
+
+#[derive(Debug, Clone, PartialEq)]
+pub enum LineOutcome {
+    Value(CV),
+    /// type definitions only
+    NoValue,
+    ParseError(String),
+    CompileError(String),
+    RuntimeError(quiver_core::error::Error),
+    EnvError(String),
+    /// scheduler trouble / no answer
+    Stuck(String),
+}
+
+impl ReplSession {
+    pub fn new(workers: usize, b: &Builtins, modules: std::collections::HashMap<Vec<String>, String>) -> ReplSession {
+        let mut sim = Sim::new(workers, b, false, None);
+        let resolver = Box::new(quiver_compiler::PackageResolver::memory(modules));
+        let repl = Repl::new(&mut sim.env, resolver, b.clone()).expect("repl");
+        ReplSession { sim, repl }
+    }
+
+    fn drive(&mut self, strat: Strategy, rng: &mut crate::rng::Rng, done: &mut dyn FnMut(&mut Sim) -> bool) -> RunEnd {
+        self.sim.run(strat, QuantumPolicy::Mixed, rng, 200_000, &|| false, done)
+    }
+
+    pub fn eval(&mut self, line: &str, strat: Strategy, rng: &mut crate::rng::Rng) -> LineOutcome {
+        // process types first (as the real front ends do)
+        let tid = match self.sim.env.request_process_types() { Ok(t) => t, Err(e) => return LineOutcome::EnvError(format!("{}", e)) };
+        let mut types = None;
+        let end = self.drive(strat, rng, &mut |s: &mut Sim| { if let Ok(Some(RequestResult::ProcessTypes(t))) = s.env.poll_request(tid) { types = Some(t); true } else { false } });
+        let Some(types) = types else { return LineOutcome::Stuck(format!("process types: {:?}", end)) };
+        let rid = match std::panic::catch_unwind(std::panic::AssertUnwindSafe(|| self.repl.evaluate(&mut self.sim.env, line, types))) {
+            Err(p) => return LineOutcome::Stuck(format!("evaluate panicked: {}", crate::pool::panic_msg(&p))),
+            Ok(Ok(Some(r))) => r,
+            Ok(Ok(None)) => return LineOutcome::NoValue,
+            Ok(Err(ReplError::Parser(e))) => return LineOutcome::ParseError(format!("{}", e)),
+            Ok(Err(ReplError::Compiler(e))) => return LineOutcome::CompileError(format!("{:?}", e)),
+            Ok(Err(ReplError::Runtime(e))) => return LineOutcome::RuntimeError(e),
+            Ok(Err(ReplError::Environment(e))) => return LineOutcome::EnvError(format!("{}", e)),
+        };
+        let mut res = None;
+        let end = self.drive(strat, rng, &mut |s: &mut Sim| { if let Ok(Some(RequestResult::Result(r, _))) = s.env.poll_request(rid) { res = Some(r); true } else { false } });
+        match res {
+            Some(Ok((v, heap))) => {
+                let program = self.sim.env.get_program();
+                LineOutcome::Value(qv::canon_extracted(&v, &heap, program, program.get_constants(), &|i| program.get_builtins().get(i).map(|b| b.name.clone()).unwrap_or_default()))
+            }
+            Some(Err(e)) => LineOutcome::RuntimeError(e),
+            None => LineOutcome::Stuck(format!("{:?}", end)),
+        }
+    }
+}
